@@ -177,9 +177,14 @@ def run(ctx):
     # ---- C. dispatch -----------------------------------------------------------------------
     calls = []
 
+    cur_marker = [None]
+
     def recorder(name):
         def m(I_, st_, depth, callee, args, body, ln):
             calls.append((name, list(args[1:])))
+            if cur_marker[0] is not None:
+                # must-call marker: a path around the call leaves the join of both marker values
+                I_.store_to(st_, cur_marker[0], (), Opaque("CALLED"), False, body, ln)
             return TOP
         return m
 
@@ -238,9 +243,14 @@ def run(ctx):
             ta = new_tui(I, st)
             del calls[:]
             I.events.clear()
+            cur_marker[0] = I.new_alloc(st, "marker", Opaque("NOT-CALLED"))
             r = I.run_body(hi, [Ref(ta, (), True)], st, 0)
+            mark_ = I.load(st, cur_marker[0], ())
+            cur_marker[0] = None
             got = [(n_, a_) for n_, a_ in calls if n_ != "editor.handle"]
             unk = [repr(e)[:120] for e in I.events if e.kind in ("unknown_call_value",)][:2]
+            if got and name != "Quit" and not (name == "Next" and payload[0] == 0) and mark_ != Opaque("CALLED"):
+                unk = unk + ["the machine call is skipped on some path (it is made under a condition)"]
             where = "%s (Command::%s)" % (hi.loc(), label)
             if name == "Quit":
                 ok = not got and r in (1, True)
@@ -364,6 +374,8 @@ def run(ctx):
     CONTROL_BITS = 0b0000_0010
     keymap = sp["keys"]
 
+    last_marker = [None]
+
     def run_event(code, modbits, note_empty, input_empty):
         I = absint.Interp(p)
         install(I)
@@ -381,7 +393,10 @@ def run(ctx):
         ta_ = new_tui(I, st_)
         del calls[:]
         I.events.clear()
+        cur_marker[0] = I.new_alloc(st_, "marker", Opaque("NOT-CALLED"))
         r_ = I.run_body(he, [Ref(ta_, (), True)], st_, 0)
+        last_marker[0] = I.load(st_, cur_marker[0], ())
+        cur_marker[0] = None
         unk_ = [repr(e)[:100] for e in I.events if e.kind in ("unknown_call_value", "unknown_extern") and not e.in_log][:2]
         return r_, list(calls), unk_
 
@@ -406,7 +421,9 @@ def run(ctx):
         if ch == "c":
             ok = not names_ and r in (1, True)
         elif ch in keymap:
-            ok = names_ == [keymap[ch]] and r in (0, False)
+            # the call is made whatever the machine's state is (a guard in the TUI would drop side effects the library call
+            # has also when it looks ineffective, e.g. the request bit a masked key press leaves in the status register)
+            ok = names_ == [keymap[ch]] and r in (0, False) and last_marker[0] == Opaque("CALLED")
         else:
             ok = not names_ and r in (0, False)
         chk.ob("dispatch/key/ctrl-%s" % ch, ok and not unk,
